@@ -13,6 +13,7 @@ import (
 
 	"github.com/cockroachdb/errors"
 	"github.com/cockroachdb/redact"
+	"github.com/getsentry/sentry-go"
 )
 
 // C15 — the Sentry report is faithful to the error's structure.
@@ -164,9 +165,38 @@ func (c15) Run(t *tape.Tape, tier Tier) *Result {
 	check(e0, "origin (local)")
 	m1, p := obs.Encode(e0)
 	route := drawRoute(t, nproc, 4)
+	foreign := false
 	if p == "" {
 		res.Desc.Routes = []string{routeString(append([]int{0}, route...))}
+		sim.DupNum = 0
 		sim.Send(0, 1, []int{0}, route, m1)
+		// the same error as sent by a peer whose source paths look different
+		// (a Windows build: "C:/..."): only the paths of the frames may differ
+		if nStacks > 0 && t.Bool(1, 3) {
+			if m2 := foreignPaths(m1); m2 != nil {
+				foreign = true
+				sim.Stats.Faults["stack-paths=foreign"]++
+				res.Desc.Faults = append(res.Desc.Faults, "stack-paths=foreign")
+				sim.Send(1, 1, []int{0}, route, m2)
+			}
+		}
+	}
+	type frameKey struct{ proc, hop int }
+	framesAt := map[frameKey][2][]sentry.Frame{}
+	collect := func(e error) []sentry.Frame {
+		var out []sentry.Frame
+		obs.S(func() string {
+			ev, _ := errors.BuildSentryReport(e)
+			if ev != nil {
+				for _, exc := range ev.Exception {
+					if exc.Stacktrace != nil {
+						out = append(out, exc.Stacktrace.Frames...)
+					}
+				}
+			}
+			return ""
+		})
+		return out
 	}
 	sim.OnDeliver = func(d *world.Delivery) {
 		where := fmt.Sprintf("hop %d at process %d via %s", d.Msg.Hop, d.Proc.ID, routeString(d.Msg.Path))
@@ -174,7 +204,29 @@ func (c15) Run(t *tape.Tape, tier Tier) *Result {
 			return
 		}
 		sim.Logf("check hop %d", d.Msg.Hop)
-		check(d.Err, where)
+		if d.Msg.Flow == 0 {
+			check(d.Err, where)
+		}
+		if foreign {
+			k := frameKey{d.Proc.ID, d.Msg.Hop}
+			pair := framesAt[k]
+			pair[d.Msg.Flow] = collect(d.Err)
+			framesAt[k] = pair
+			if a, b := pair[0], pair[1]; a != nil && b != nil {
+				if len(a) != len(b) {
+					res.add(Violation{Prop: "C15", Oracle: "frames-with-foreign-paths", Culprit: "frame-count", Expected: fmt.Sprint(len(a)), Observed: fmt.Sprint(len(b)), Where: where})
+				} else {
+					for i := range a {
+						if a[i].Lineno != b[i].Lineno || a[i].Function != b[i].Function || a[i].Module != b[i].Module || "C:"+a[i].AbsPath != b[i].AbsPath {
+							res.add(Violation{Prop: "C15", Oracle: "frames-with-foreign-paths", Culprit: "frame-fields",
+								Expected: fmt.Sprintf("%s %s C:%s:%d", a[i].Module, a[i].Function, a[i].AbsPath, a[i].Lineno),
+								Observed: fmt.Sprintf("%s %s %s:%d", b[i].Module, b[i].Function, b[i].AbsPath, b[i].Lineno), Where: where})
+							break
+						}
+					}
+				}
+			}
+		}
 	}
 	sim.Run()
 	res.Stats = sim.Stats
@@ -183,4 +235,36 @@ func (c15) Run(t *tape.Tape, tier Tier) *Result {
 	res.Nontrivial = len(obs.Tree(e0, false)) >= 2
 	res.Key = fmt.Sprintf("%s|%d", spec.Shape(), len(route))
 	return res
+}
+
+// foreignPaths rewrites the printed stacks inside the reportable payloads of
+// an encoded error so that every source path starts with "C:" (as captured
+// by a peer on another platform). Returns nil if nothing was rewritten.
+func foreignPaths(data []byte) []byte {
+	enc, err := world.ParseWire(data)
+	if err != nil {
+		return nil
+	}
+	n := 0
+	world.WalkWire(enc, false, func(w *world.WireNode) {
+		d := w.Details()
+		fam := d.ErrorTypeMark.FamilyName
+		if !(strings.HasSuffix(fam, "withstack.withStack") || strings.HasSuffix(fam, "errors.withStack") || strings.HasSuffix(fam, "errors.fundamental")) {
+			return
+		}
+		for i, s := range d.ReportablePayload {
+			if strings.Contains(s, "\n\t/") {
+				d.ReportablePayload[i] = strings.ReplaceAll(s, "\n\t/", "\n\tC:/")
+				n++
+			}
+		}
+	})
+	if n == 0 {
+		return nil
+	}
+	out, err := enc.Marshal()
+	if err != nil {
+		return nil
+	}
+	return out
 }
